@@ -92,10 +92,25 @@ def make(n, kinds, orders="rev"):
         vdir = {}
         for j in has_version:
             vdir[j] = str(proj.add_version(specs[j].ident, 100 + j))
-        res = graphs.run_graph(g, specs, root, again=again, jobs=1, sched=sched, proj=proj)
+        # cond may itself have been started by a task of an outer cond: COND_* variables are then in its own environment
+        ambient = g.flag("cond_started_by_a_task_of_an_outer_cond") if (decor == 0 and not same) else False
+        saved_env = {k_: os.environ.get(k_) for k_ in ("COND_NAME", "COND_OUT", "COND_DEPS", "COND_SLOT")}
+        if ambient:
+            outer = proj.root / "outer.task.1"
+            outer.mkdir()
+            (outer / "precious.txt").write_text("output of the outer task")
+            os.environ.update(COND_NAME="outer", COND_OUT=str(outer), COND_DEPS=str(proj.root / "outer-dep.task.2"), COND_SLOT="5")
+        try:
+            res = graphs.run_graph(g, specs, root, again=again, jobs=1, sched=sched, proj=proj)
+        finally:
+            for k_, v_ in saved_env.items():
+                if v_ is None:
+                    os.environ.pop(k_, None)
+                else:
+                    os.environ[k_] = v_
         try:
             graphs.crash_check(g, res, specs)
-            D = graphs.describe(specs) + ["again=%s has_version=%s" % (again, sorted(has_version))]
+            D = graphs.describe(specs) + ["again=%s has_version=%s%s" % (again, sorted(has_version), " COND_* inherited from an outer cond" if ambient else "")]
             g.require(res.status == 0, "env:run-failed", "status=%r err=%r; %s" % (res.status, res.err[-200:], D))
             sp = {}
             for p_ in res.kernel.tasks():
@@ -122,7 +137,7 @@ def make(n, kinds, orders="rev"):
                     snap = p.snapshot
                     env = p.env
                     argv = snap["argv"]
-                    g.require(len(argv) == 3 and argv[0] == "/bin/bash" and argv[1] == "-c", "env:not-run-under-bash", "argv=%s; %s" % (argv, D))
+                    g.require(len(argv) == 3 and os.path.isabs(argv[0]) and os.path.basename(argv[0]) == "bash" and argv[1] == "-c", "env:not-run-under-bash", "argv=%s; %s" % (argv, D))
                     want = s.run.split() + render_args(s.args) + render_opts(s.options)
                     g.require(argv[2].split() == want, "env:command-line", "%s ran %r, expected tokens %s; %s" % (s.ident, argv[2], want, D))
                     g.require(os.path.realpath(snap["cwd"]) == os.path.realpath(str(proj.root / s.pkg)), "env:cwd",
